@@ -558,6 +558,14 @@ def try_unit(unit, tier="quick"):
     for u in res.undecided:
         print("UNDECIDED:", u[:2000])
     rc = 2 if res.undecided else 0
+    if res.undecided and res.mod is not None and hasattr(res.mod, "replay"):
+        try:
+            d = res.mod.replay(ctx, res, {"obl": None}) or {}
+        except Exception as e:
+            d = {"native_search": "crashed: %s" % e}
+        print("  undecided -> native differential fallback: found_input=%s input=%s" % (d.get("found_input"), json.dumps(d.get("input"), default=str)[:600] if d.get("found_input") else (d.get("native_search") or "")[-300:]))
+        if d.get("found_input"):
+            rc = 1
     for f in res.failures:
         o = f["obl"]
         print("FAILED%s: %s\n%s" % ("" if o.id in base else " (not in baseline)", o.id, o.detail[:2500]))
